@@ -797,3 +797,83 @@ register(Obligation(name="C14.minimisers.kpoint_and_spin_channel_equivariance.fr
 register(Obligation(name="C14.minimisers.kpoint_and_spin_channel_equivariance", prop=PROP, engine="B", bounded=True, run=SchemeEquivariance(), budget={"quick": 300, "thorough": 600},
                     functions=["eminus.minimizer:sd", "eminus.minimizer:lm", "eminus.minimizer:pclm", "eminus.minimizer:cg", "eminus.minimizer:pccg", "eminus.minimizer:auto"],
                     doc="BOUNDED: every scheme treats all k-points and both spin channels alike (energies after four iterations do not depend on their order)"))
+
+
+# ------------------------------------------------------------------------------------------------
+# bounded: restart of a converged run (with Fermi smearing); stored energies after the potential was changed
+# ------------------------------------------------------------------------------------------------
+
+
+class RestartAndStoredEnergies:
+    """BOUNDED: (a) a converged run with Fermi smearing restarted from its own coefficients with every scheme converges within three iterations to the same
+    energy (20 etol), and every stored contribution (entropy term included) is the one of the first run to 1e-3 (first order in the residual change of the orbitals); (b) after the external potential of an SCF object was
+    changed (GTH with non-local projectors -> harmonic / Coulomb) and the object was run again, every stored energy contribution equals the one a FRESH object
+    computes at the returned coefficients (no contribution of the earlier potential survives) and run() returns their sum."""
+
+    def problems(self):
+        import dataclasses
+
+        import eminus
+        from eminus import SCF, Atoms, Cell
+        from eminus.energies import get_E
+        from eminus.minimizer import scf_step
+
+        eminus.config.backend = "numpy"
+        eminus.config.verbose = "critical"
+        bad = []
+        etol = 1e-7
+
+        def fields(scf):
+            return {f.name: float(getattr(scf.energies, f.name)) for f in dataclasses.fields(scf.energies)}
+
+        # (a) smeared, restart with each scheme
+        cell = Cell("Li", "bcc", ecut=5, a=3.44, smearing=5e-3, bands=3)
+        scf = SCF(cell, etol=etol, opt={"auto": 100}, verbose="critical")
+        e_first = float(scf.run())
+        f_first = fields(scf)
+        if not scf.is_converged:
+            raise RuntimeError("harness: the smeared reference run did not converge")
+        for m in ("pccg", "auto", "cg", "pclm", "sd"):
+            scf.opt = {m: 50}
+            e = float(scf.run())
+            it = int(scf._opt_log[m]["iter"])
+            f = fields(scf)
+            # the total energy is stationary at the minimum (second order in the change of the orbitals), its contributions are first order: 1e-3
+            d = {k: f[k] - f_first[k] for k in f if abs(f[k] - f_first[k]) > 1e-3}
+            if abs(e - e_first) > 20 * etol or d or not scf.is_converged or it > 3 or abs(e - sum(f.values())) > 1e-12:
+                bad.append(dict(case=f"bcc Li, smearing 5e-3, converged with auto, restarted with {m}", first=e_first, restart=e, iterations=it, converged=bool(scf.is_converged),
+                                contributions_that_moved=d, returned_minus_sum_of_stored=e - sum(f.values())))
+        # (b) potential changed on an existing object
+        for newpot in ("harmonic", "coulomb"):
+            at = Atoms("Ne", [[0.1, 0.2, 0.3]], ecut=5, a=6)
+            scf = SCF(at, opt={"pccg": 4}, verbose="critical")
+            scf.run()
+            scf.pot = newpot
+            e = float(scf.run())
+            f = fields(scf)
+            ref = SCF(Atoms("Ne", [[0.1, 0.2, 0.3]], ecut=5, a=6), pot=newpot, verbose="critical")
+            ref.W = [np.asarray(w).copy() for w in scf.W]
+            ref.energies.Eewald = scf.energies.Eewald
+            scf_step(ref, 0)
+            g = fields(ref)
+            d = {k: (f[k], g[k]) for k in f if abs(f[k] - g[k]) > 1e-9}
+            if d or abs(e - sum(f.values())) > 1e-12:
+                bad.append(dict(case=f"Ne: run() with GTH; pot = {newpot!r}; run()", stored_vs_fresh_object_at_the_returned_coefficients=d, returned_minus_sum_of_stored=e - sum(f.values())))
+        return bad
+
+    def __call__(self, ob, tier, seed):
+        from pycv.framework import BOUNDED_OK
+
+        bad = self.problems()
+        if bad:
+            return Result(REFUTED, backend="native", witness=dict(case=bad[0]["case"]), replayed=True, replay_info=dict(failing=bad[:4]), detail=f"restart / stored energies: {bad[0]}")
+        return Result(BOUNDED_OK, backend="native", detail="bounded: smeared bcc Li restarted with five schemes (same energy and contributions, <= 3 iterations); Ne after a change of the potential: stored energies are those of a fresh object at the returned coefficients")
+
+    def replay(self, wit):
+        bad = self.problems()
+        return bool(bad), dict(failing=bad[:4])
+
+
+register(Obligation(name="C14.run.restart_and_stored_energies", prop=PROP, engine="B", bounded=True, run=RestartAndStoredEnergies(), budget={"quick": 400, "thorough": 900},
+                    functions=["eminus.scf:SCF.run", "eminus.minimizer:scf_step", "eminus.energies:get_E", "eminus.energies:get_Eentropy"],
+                    doc="BOUNDED: restart of a converged smeared run keeps energy and contributions; after a change of the potential the stored energies are those of the returned coefficients"))
